@@ -96,8 +96,10 @@ def main():
         if not ok:
             break
         thms, aok, alog = vlib.axiom_audit(m)
-        obligations.update(thms)
-        n_thm += len(thms)
+        # every theorem is audited for axioms; the compiler's own equation lemmas (f.eq_1, f.eq_def, …) are not counted as obligations
+        stated = {n: a for n, a in thms.items() if not vlib.re.search(r"\.(eq_\d+|eq_def|congr_simp|sizeOf_spec|injEq|inj)$", n)}
+        obligations.update(stated)
+        n_thm += len(stated)
         if not aok:
             broken.append("axiom audit failed for %s: %s" % (m, alog[-500:] if alog else "unexpected axioms"))
     required = getattr(mod, "REQUIRED_THEOREMS", [])
